@@ -74,10 +74,19 @@ PROPS["C19"] = dict(
     # ---------------------------------------------------------------- GeometryKernel on the base family, symbolic positions
     dict(name="geom-int", harness="C19_geom.cpp", entries=["harness_geom_i_edges", "harness_geom_i_bary"], units=_C19_GEOM_UNITS, unwind=60, object_bits=13,
          solvers=["cadical"], witness_any=True, timeout=300, mem_gb=4,
-         shards={"quick": [{0: B_TET}, {0: B_LOWDIM}], "thorough": [{0: b} for b in (B_LOWDIM, B_TRI2, B_TET, B_TET2_FACE, B_TET2_EDGE, B_HEX, B_PRISM_PYR)]},
+         shards={"quick": [{0: B_TET}, {0: B_LOWDIM}], "thorough": [{0: b} for b in (B_LOWDIM, B_TRI2, B_TET, B_TET2_FACE)]},
          bounds="GeometryKernel<Vec3i,TopologyKernel> on base meshes (quick: one tetrahedron; triangle+dangling/duplicate edges+isolated vertex), every position component a free "
                 "32-bit int: vertex()/set_vertex() round trip for symbolic vertex probes, vector(halfedge)/vector(edge) == position(to)-position(from) for a symbolic halfedge "
                 "probe, barycenter(face)/barycenter(cell) == (wrapping sum of the positions of the entity's vertices)/count with C++ integer division, every face and cell of the base"),
+    # polyhedral cells whose vertices lie on different numbers of faces (pyramid: apex on 4, base vertices on 3): the mean must weight every vertex once
+    dict(name="geom-int-bary-poly", harness="C19_geom.cpp", entries=["harness_geom_i_bary"], units=_C19_GEOM_UNITS, unwind=200, object_bits=13,
+         solvers=["cadical"], witness_any=True, timeout=600, mem_gb=4,
+         shards={"quick": [{0: B_PRISM_PYR}], "thorough": [{0: b} for b in (B_PRISM_PYR, B_HEX, B_TET2_EDGE, B_TET3_RING)]},
+         bounds="barycenter(face)/barycenter(cell) as in geom-int on the prism+pyramid base (7 vertices, triangles and quads, a 5-vertex pyramid and a 6-vertex prism; thorough: + hexahedron, two tets "
+                "sharing an edge, three-tet ring), all positions free 32-bit ints; unwind 200 (CBMC accumulates the iteration count of nested harness loops)"),
+    dict(name="geom-int-edges-big", harness="C19_geom.cpp", entries=["harness_geom_i_edges"], units=_C19_GEOM_UNITS, unwind=200, object_bits=13, tiers=["thorough"],
+         solvers=["cadical"], witness_any=True, timeout=600, mem_gb=4, shards=[{0: b} for b in (B_TET2_EDGE, B_HEX, B_PRISM_PYR)],
+         bounds="vertex()/set_vertex() round trip and vector(halfedge)/vector(edge) as in geom-int on two tets sharing an edge, a hexahedron, prism+pyramid; unwind 200"),
     dict(name="geom-int-length", harness="C19_geom.cpp", entries=["harness_geom_i_length"], units=_C19_GEOM_UNITS, unwind=60, object_bits=13,
          solvers=["cadical"], witness_any=True, timeout=300, mem_gb=4,
          shards={"quick": _c19_len_shards([B_TET], [1, 6, 15]), "thorough": _c19_len_shards([B_LOWDIM, B_TET, B_TET2_FACE])},
